@@ -303,8 +303,8 @@ def run(ctx):
             if lps:
                 b = match(pat("range($lo, $hi)"), lps[-1].iter) or match(pat("range($hi)"), lps[-1].iter)
                 if b is not None:
-                    lo = rules.term_of(b["lo"]) if "lo" in b else tm.ZERO
-                    hi = rules.term_of(b["hi"])
+                    lo = rules.term_of(b["lo"], esc) if "lo" in b else tm.ZERO
+                    hi = rules.term_of(b["hi"], esc)
                     want_hi = tm.parse(f"len({Ge}.edges()) + 1")
                     alt_hi = tm.parse(f"{Ge}.number_of_edges() + 1")
                     if lo == tm.ZERO and hi in (want_hi, alt_hi) and txt(cb.args[1]) == txt(lps[-1].target) and txt(cb.args[0]) in (f"{Ge}.edges()", f"{Ge}.edges"):
